@@ -187,6 +187,12 @@ type SimPool struct {
 	InFlight   int
 	ConnectN   int
 	UpdateN    int
+	// RefuseOverlap: as the real pool does, refuse a keep-alive of the node while another one is being processed
+	RefuseOverlap   bool
+	updatesInFlight int
+	Refused         int
+	// Hold[method]: the next call of the method stays inside the pool until the channel is closed (a slow pool)
+	Hold map[string]chan struct{}
 }
 
 // RPCError makes an error with a JSON-RPC code, as the real transport delivers pool errors.
@@ -259,6 +265,32 @@ func (p *SimPool) Update(ctx context.Context, req pool.UpdateRequest) (*pool.Upd
 		p.rec(PoolCall{Method: "Update", Update: req, Err: context.DeadlineExceeded})
 		<-ctx.Done()
 		return nil, ctx.Err()
+	}
+	p.mu.Lock()
+	if p.RefuseOverlap && p.updatesInFlight > 0 {
+		p.Refused++
+		p.mu.Unlock()
+		err := RPCError(-32603, "update already in progress for this node")
+		p.rec(PoolCall{Method: "Update", Update: req, Err: err})
+		return nil, err
+	}
+	p.updatesInFlight++
+	hold := p.Hold["Update"]
+	delete(p.Hold, "Update")
+	p.mu.Unlock()
+	defer func() {
+		p.mu.Lock()
+		p.updatesInFlight--
+		p.mu.Unlock()
+	}()
+	if hold != nil {
+		p.S.Fault("pool_slow_to_answer")
+		select {
+		case <-hold:
+		case <-ctx.Done():
+			p.rec(PoolCall{Method: "Update", Update: req, Err: ctx.Err()})
+			return nil, ctx.Err()
+		}
 	}
 	err, done := p.enter("Update")
 	defer done()
